@@ -937,29 +937,46 @@ func c01(r *core.Run) {
 					}
 				}
 			case *ssa.MakeClosure:
+				// a closure, or a method value of a small struct holding the captured state
 				g := x.Fn.(*ssa.Function)
+				if g.Synthetic != "" {
+					if mo, ok := g.Object().(*types.Func); ok {
+						if m := p.SSA.FuncValue(mo); m != nil && m.Blocks != nil {
+							g = m
+						}
+					}
+				}
 				r.Fn(core.FuncName(g))
 				if len(accs) != 1 {
 					o.Fail(p.InstrPos(call), "%s wraps a predicate it was not given", core.FuncName(f))
 					break
 				}
-				var fv *ssa.FreeVar
-				for i, b := range x.Bindings {
-					if (isValueOf(accs[0])(b) || spillOf(b, accs[0])) && i < len(g.FreeVars) {
-						fv = g.FreeVars[i]
+				captured := false
+				for _, b := range x.Bindings {
+					if isValueOf(accs[0])(b) || spillOf(b, accs[0]) || core.DependsOn(b, isValueOf(accs[0])) {
+						captured = true
 					}
 				}
 				ep := errorParam(g)
-				if fv == nil || ep == nil {
+				if !captured || ep == nil {
 					o.Fail(p.InstrPos(call), "the wrapping predicate does not capture the caller's predicate")
 					break
 				}
+				// the captured predicate: a dynamic call of a func(error) bool value held in the
+				// captured state (free variable, or field of the bound receiver)
 				isInner := core.CallOfValue(func(v ssa.Value) bool {
-					if v == fv {
-						return true
+					if k := typeKey(v.Type().Underlying()); k != "func(error) bool" {
+						return false
 					}
-					u, ok := v.(*ssa.UnOp)
-					return ok && u.Op == token.MUL && u.X == fv
+					return core.DependsOn(v, func(x ssa.Value) bool {
+						switch y := x.(type) {
+						case *ssa.FreeVar:
+							return true
+						case *ssa.Parameter:
+							return g.Signature.Recv() != nil && len(g.Params) > 0 && y == g.Params[0]
+						}
+						return false
+					})
 				})
 				inner := core.Calls(g, isInner)
 				if len(inner) == 0 {
@@ -970,9 +987,25 @@ func c01(r *core.Run) {
 						o.Fail(p.InstrPos(ic), "the caller's predicate is applied to a different error")
 					}
 				}
-				for _, ret := range core.Returns(g) {
-					if !core.IsResult(core.Result(ret, 0), 0, isInner) {
-						o.Fail(p.InstrPos(ret), "the wrapping predicate returns %s, not the caller's predicate's verdict", core.Describe(core.Result(ret, 0)))
+				// the wrapper's verdict is the caller's predicate's verdict, for a nil and a non-nil error
+				for _, ch := range []string{"nil", "other"} {
+					for _, verdict := range []string{bTrue, bFalse} {
+						verdict := verdict
+						e := &boolEval{fn: g, subject: isValueOf(ep), token: tokenOf, choice: ch,
+							assume: func(v ssa.Value) (string, bool) {
+								if cl, ok := v.(*ssa.Call); ok && isInner(cl) {
+									return verdict, true
+								}
+								return "", false
+							}}
+						e.run()
+						if e.aborted {
+							o.Unres("%s: evaluation aborted", core.FuncName(g))
+							continue
+						}
+						if !onlyOutcome(e, verdict) {
+							o.Fail(p.Pos(g.Pos()), "the wrapping predicate yields %v when the caller's predicate says %s (err=%s): not the caller's verdict", e.outcomeList(), verdict, ch)
+						}
 					}
 				}
 			default:
